@@ -39,6 +39,13 @@ Count(r) == IF W!Lt(First(r), EndP1(r)) THEN W!ToNat(W!Sub(EndP1(r), First(r))) 
 RECURSIVE SumCounts(_, _)
 SumCounts(rs, i) == IF i > Len(rs) THEN 0
                     ELSE (IF IsAvail(rs[i]) THEN Count(rs[i]) ELSE 0) + SumCounts(rs, i + 1)
+\* kernel frames that are usable frames (the image may end in the trailing partial page of its region, which is no frame of any pool)
+WMax(a, b) == IF W!Lt(a, b) THEN b ELSE a
+WMin(a, b) == IF W!Lt(a, b) THEN a ELSE b
+Overlap(lo, hi, kf, ke) == LET st == WMax(lo, kf)  en == WMin(hi, ke) IN IF W!Lt(st, en) THEN W!ToNat(W!Sub(en, st)) ELSE 0
+RECURSIVE KernelUsableR(_, _, _, _)
+KernelUsableR(bs, kf, ke, i) == IF i > Len(bs) THEN 0 ELSE Overlap(bs[i][1], bs[i][2], kf, ke) + KernelUsableR(bs, kf, ke, i + 1)
+KernelUsable(bs, kf, ke) == KernelUsableR(bs, kf, ke, 1)
 KFirst(ks) == W!ShiftR(W!RoundDown(ks, PB), PB)
 KEndP1(ke) == W!ShiftR(W!RoundUpC(ke, PB).v, PB)
 InKernel(s, f) == W!Le(s.kf, f) /\ W!Lt(f, s.ke)
@@ -96,7 +103,7 @@ MonInit(s, e) ==
       ke == KEndP1(e.ke)
       es == Range(e.early)
       s1 == [S0 EXCEPT !.rb = Bounds(e.regs), !.kf = kf, !.ke = ke, !.early = es]
-      a  == SumCounts(e.regs, 1) - W!ToNat(W!Sub(ke, kf)) - Cardinality(es)
+      a  == SumCounts(e.regs, 1) - KernelUsable(s1.rb, kf, ke) - Cardinality(es)
   IN [s |-> [s1 EXCEPT !.n = a],
       cs |-> <<
         <<"C03", e.res = "panic", "pmm.Init panicked">>,
